@@ -123,6 +123,17 @@ func checkSanitised(c Case) error {
 	}
 	target := filepath.Join(arena, "bundle")
 	os.Mkdir(target, 0755)
+	// the process's working directory and temporary directory are part of "outside the target"
+	os.Mkdir(filepath.Join(arena, "cwd"), 0755)
+	os.Mkdir(filepath.Join(arena, "tmp"), 0777)
+	oldWd, _ := os.Getwd()
+	oldTmp := os.Getenv("TMPDIR")
+	os.Chdir(filepath.Join(arena, "cwd"))
+	os.Setenv("TMPDIR", filepath.Join(arena, "tmp"))
+	defer func() {
+		os.Chdir(oldWd)
+		os.Setenv("TMPDIR", oldTmp)
+	}()
 	before, err := fsx.Snapshot(arena, func(rel string) bool { return rel == "bundle" })
 	if err != nil {
 		return fmt.Errorf("harness: %v", err)
